@@ -233,6 +233,8 @@ def run_discovery(
     stop_when_complete: bool = True,
     eavesdrop: bool = False,
     max_zones: int | None = None,
+    scan: bool = False,  # another gateway (18:222222) walks the controller's zone table (RQ|000C|zz00 / zz04 for 00-0B,
+    # RQ|0005 masks) 150 s after start-up - what ramses_cli's full scan or an RFG100 does; its exchanges are overheard
 ) -> dict:
     """Run the real Gateway (discovery on) against Controller(cfg); return the recorded trace."""
     import ramses_rf.entity_base as eb
@@ -312,6 +314,18 @@ def run_discovery(
         box.update(gwy=gwy, loop=loop)
         if start == "heard":
             t.rx(f" I --- {CTL} --:------ {CTL} 1F09 003 FF0708", 1.0)
+        if scan:
+            other, at = "18:222222", 150.0
+            asks = [("0005", "0000"), ("0005", "0004")] + [("000C", f"{z:02X}{r}") for z in range(12) for r in ("00", "04")] \
+                + [("0005", "0008"), ("0005", "000D")]
+            for code, payload in asks:
+                rp = ctl.reply(code, payload)
+                t.rx(f"RQ --- {other} {CTL} --:------ {code} {len(payload) // 2:03d} {payload}", at)
+                if rp is not None:
+                    t.rx(f"RP --- {CTL} {other} --:------ {code} {len(rp) // 2:03d} {rp}", at + 0.05)
+                at += 0.3
+            loop.call_later(at + 1.0, event_sample)
+            rec["scan"] = len(asks)
         try:
             await asyncio.sleep(2.0 - loop.time())
             await vloop.drain()
